@@ -6,25 +6,69 @@ BASELINE_OFF = ("cd /repo && (cargo nextest run --workspace --no-fail-fast --off
                 "|| cargo test --workspace --no-fail-fast --offline)")
 
 # id -> (technique, level text, level note, design ref)
+T = "Trusted: "
+PBT = "property-based testing: proptest-drawn entropy decoded into structured cases, "
 CHECKS = {
- "C01": ("property-based testing (proptest-driven generators, exact rational reference line, shrinking to a replay file)",
-         "Generated-input search: every lane of every query is compared with the exact rational line through the true bracket, "
-         "allowance 8 ulp of the larger bracketing value. Finds bracket, formula and per-lane errors on uneven axes, at knots and one ulp "
-         "beside them, in f64 and f32; establishes nothing about inputs outside the generated classes.",
-         "Trusted: the hand-written exact arithmetic (self-tested each run), the linear-scan bracket, magnitudes inside the exponent window.",
-         "5/C01"),
- "C02": ("property-based testing (generated spline data sets; structural oracle in exact arithmetic on sampled values)",
-         "Generated-input search over all boundary selections: knot values, one-cubic-per-interval (4 samples predict the 5th) and "
-         "continuity of S' and S'' at interior knots are decided by exact linear functionals of the implementation's own samples. "
-         "Independent of boundary-condition correctness; blind below the calibrated allowance.",
-         "Trusted: exact rational arithmetic, the calibrated constant K (constants.rs), sigma taken from the certified exact spline.",
-         "5/C02"),
- "C03": ("property-based testing (differential against a certified exact rational spline + end-condition functionals)",
-         "Generated-input search: every sampled value of every lane is compared with the mathematically unique spline computed in "
-         "exact rational arithmetic (different formulation than the crate, self-certified per solve); end conditions are additionally "
-         "recovered from the implementation's values. All 25 (left,right) pairs, Periodic, per-lane selections, n=3/4/larger.",
-         "Trusted: exact arithmetic + certificate; allowance K*u*sigma calibrated on 300k data sets (K=2^18 f64, 2^15 f32): smaller errors are invisible.",
-         "5/C03"),
+ "C01": (PBT + "exact rational reference line (differential oracle), shrinking to a replay file",
+         "Generated-input search: every lane of every query is compared with the exact rational line through the true bracket, allowance 8 ulp of the larger bracketing value. Finds bracket, formula and per-lane errors on uneven axes, at knots and one ulp beside them, in f64 and f32; establishes nothing about inputs outside the generated classes.",
+         T + "hand-written exact arithmetic (self-tested each run), linear-scan bracket, magnitudes inside the exponent window.", "5/C01"),
+ "C02": (PBT + "structural oracle in exact arithmetic on sampled values (knot values, one cubic per interval, C1/C2 jumps)",
+         "Generated-input search over all boundary selections: knot values, one-cubic-per-interval and continuity of S' and S'' at interior knots are decided by exact linear functionals of the implementation's own samples. Independent of boundary-condition correctness; blind below the calibrated allowance.",
+         T + "exact rational arithmetic, calibrated constant K (constants.rs), sigma from the certified exact spline.", "5/C02"),
+ "C03": (PBT + "differential against a certified exact rational spline plus end-condition functionals",
+         "Generated-input search: every sampled value of every lane is compared with the mathematically unique spline computed in exact rational arithmetic (different formulation than the crate, self-certified per solve); end conditions are additionally recovered from the implementation's values. All 25 (left,right) pairs, Periodic, per-lane selections, n=3/4/larger.",
+         T + "exact arithmetic + certificate; allowance K*u*sigma calibrated on 300k data sets (K=2^18 f64, 2^15 f32): smaller errors are invisible.", "5/C03"),
+ "C04": (PBT + "exact rational bilinear blend (differential) with transpose and grid-line metamorphic companions",
+         "Generated-input search on non-square grids with independent axis classes: every lane compared with the exact blend of the true cell (16 ulp of the largest corner); transposed problem and 1-D linear interpolation along grid lines as companions.",
+         T + "exact arithmetic, linear-scan bracket, exponent window.", "5/C04"),
+ "C05": (PBT + "closed-range predicate as exact Ok/Err/panic oracle over all entry points",
+         "Generated-input search over every strategy and entry point with range ends, adjacent floats, +-inf, NaN, far values and batches with offending elements at generated positions; 2-D with differing x / y ranges. Outcome classes are compared exactly.",
+         T + "nothing beyond float comparison; messages are not checked.", "5/C05"),
+ "C06": (PBT + "twin interpolators (bitwise in range) and exact end polynomial (differential) outside",
+         "Generated-input search: extrapolating vs non-extrapolating twins must agree bit-for-bit in range; outside, results are compared with the exact end line / end cubic of the certified exact spline / border-cell bilinear form up to 2^40 spans away; no finite query may be rejected.",
+         T + "exact arithmetic, tolerance model of DESIGN 3.4 with growth factor; NaN / infinite queries are outside the property.", "5/C06"),
+ "C07": (PBT + "exact rational wrap + exact periodic spline (differential) and own in-range value (metamorphic)",
+         "Generated-input search with wrap counts up to +-10^6 and queries ulps around the seam and its images: S(q) must match the exact periodic spline at the exactly wrapped argument and the implementation's own in-range value there, within L*delta_arg + K*u*sigma.",
+         T + "exact arithmetic; argument-rounding allowance 8u(|q|+|k|P+|x0|+|xn|) times the exact Lipschitz constant.", "5/C07"),
+ "C08": (PBT + "metamorphic perturbation of other lanes (bitwise) and projection onto a single lane (up to rounding)",
+         "Generated-input search over data of 1..6 static and dynamic dimensions incl. zero-length axes: changing values (also NaN/inf/huge) or boundary selections of other lanes must leave lane j bit-identical; an interpolator built from lane j alone must agree up to rounding.",
+         T + "bitwise comparison only within one concrete type; projection uses 2x the C01/C03/C04 allowance.", "5/C08"),
+ "C09": (PBT + "complete enumeration of the dimension-type matrix with per-element agreement oracle (bitwise)",
+         "Every cell of {query Ix0..Ix4, IxDyn rank 0..4} x {data Ix1..Ix6, IxDyn rank 1..7} x {Linear, CubicSpline, Bilinear} is visited in every run with random data: result shape, interp_array[idx] == interp(q[idx]), scalar == interp, *_into == allocating, batch errors.",
+         T + "comparisons are between calls on the same interpolator value.", "5/C09"),
+ "C10": (PBT + "decision-table generator with a validity predicate as oracle (admissible error-kind sets, no panic)",
+         "Generated-input search over the builder decision table incl. simultaneous violations, dynamic ranks, NaN in axes, boundary array shapes, periodic ends, custom strategies with minimum 0..4; valid => Ok, invalid => Err of a kind matching a violated requirement, never a panic, custom build never reached for invalid input.",
+         T + "the validity predicate (strictly increasing as defined by C12's reference classification).", "5/C10"),
+ "C11": (PBT + "bounded-exhaustive (length<=40, guess, rank) enumeration plus random axes against a linear-scan reference",
+         "Complete enumeration of 21 620 (L, initial guess, answer) triples in f64 and f32 plus random f64/f32/i32/i64 axes up to 10^4 knots (uniform, geometric, logarithmic, ulp-clustered, mixed magnitudes) with knot / neighbour / +-inf / +-MAX / +-0 queries; through get_lower_index and both get_index_left_of.",
+         T + "linear scan; precondition (finite span and quotient, no NaN query) by construction.", "5/C11"),
+ "C12": (PBT + "exhaustive enumeration of relation words (<,=,>) and NaN placements against classification by counting",
+         "All 797 162 relation words up to vector length 13 in f64/f32/i32/i64, contiguous / reversed / strided views, two realisations; every NaN subset up to length 8; random long vectors with one late irregularity.",
+         T + "the counting reference; exhaustive only for the enumerated part.", "5/C12"),
+ "C13": (PBT + "layout / ownership variants against the standard-layout run of the same concrete type (bitwise differential)",
+         "Generated-input search with independent layouts (C, F, strided slice, reversed strides, permuted axes) and storage kinds for data, axes, queries and output buffers on all five entry points; any difference, Err or panic relative to the standard-layout run is a violation; owned-vs-view compared where type-dependent pow folding cannot differ.",
+         T + "ndarray's view machinery; policy of DESIGN 3.5 for cross-type bitwise comparison.", "5/C13"),
+ "C14": (PBT + "poisoned-frame buffers with an exact oracle (Ok => fully written, equal to allocating variant, frame untouched; wrong shape => panic)",
+         "Generated-input search over every entry point with a buffer, buffers being strided windows into poisoned storage, and every kind of wrong shape (axis +-1, permuted trailing / query axes, same element count, wrong rank, empty queries, xs/ys mismatch).",
+         T + "poison bit pattern never produced by arithmetic; writes past the allocation are left to the ASan fuzz target.", "5/C14"),
+ "C15": (PBT + "metamorphic relations (exact: bitwise; inexact: tolerance from the exact oracle)",
+         "Generated-input search over seven relations (data x 2^k, negation, axis x 2^k with converted derivative values, dyadic grid shift, data x c, axis x odd c, superposition) for every strategy, in range and extrapolated, 1-D and 2-D.",
+         T + "exactness of power-of-two scaling inside the exponent window (subnormal neighbourhoods excluded by construction).", "5/C15"),
+ "C16": (PBT + "exact polynomial values as oracle (no linear solve in the reference)",
+         "Generated-input search with dyadic-coefficient polynomials per lane and every end-condition pair the polynomial satisfies; in range and extrapolated to 8 spans; Linear / Bilinear with affine / bilinear forms. Second, independent oracle for the spline rows.",
+         T + "exact arithmetic; allowance of DESIGN 3.4.", "5/C16"),
+ "C17": (PBT + "operation histories (model: a fresh interpolator per operation), permuted and split across threads; static Send+Sync assertions",
+         "Histories of up to 60 calls incl. failing and panicking ones must give, per operation, the outcome of a fresh interpolator, in order, permuted and on 2..16 threads sharing the interpolator; Send + Sync asserted at compile time for owned / view / shared storage.",
+         T + "no control over thread schedules (stated limit); sequentially visible state is caught deterministically.", "5/C17"),
+ "C18": (PBT + "recording / failing custom strategies with the trait documentation as predicate over the recorded calls",
+         "Generated-input search with recording strategies (minimum 0..4, 1-D and 2-D, static and dynamic ranks): build reached only with validated inputs and the caller's axes; every interp_into sees the query bits in order and the right target shape; results land at the right position; accessors faithful; injected errors returned unchanged.",
+         T + "the recorder; C12's reference classification for validity.", "5/C18"),
+ "C19": (PBT + "complete enumeration of the instantiation matrix with an in-crate hook asserting type identity and counting casts; fast vs general path bitwise",
+         "All 198 compiled (element, data dim, storage, strategy) cells x 5 query dimension types: the hook panics before a cast between different types, the cast counter must advance by exactly 2/3 for statically 1-D queries and 0 otherwise, and the fast path must equal the per-element path bit-for-bit.",
+         T + "the hook (guarded by --cfg ndarray_interp_verif); a type-level fact is observed per compiled instantiation, not proved.", "5/C19"),
+ "C20": (PBT + "twin with every non-bracketing row / knot poisoned or moved (bitwise metamorphic)",
+         "Generated-input search: per query a twin is built whose non-bracketing data are NaN / inf / other values and whose non-bracketing knots are moved without reordering; the result must be bit-identical, in range and extrapolated, 1-D and 2-D, all lanes.",
+         T + "bitwise comparison within one concrete type.", "5/C20"),
 }
 
 PENDING = {}
@@ -45,7 +89,7 @@ def main():
                 "thorough_cmd": f"./run.sh {i} thorough",
                 "evidence_file": f"/verif/evidence/{i}.json",
                 "replay_cmd_template": "./run.sh replay {path}",
-                "engine": "vcheck",
+                "engine": "vmatrix" if i == "C19" else "vcheck",
                 "level_claimed": {"category": "exploration", "text": text, "design_ref": f"DESIGN.md section {ref}"},
                 "level_note": note,
                 "technique": tech,
@@ -63,8 +107,12 @@ def main():
             "add_only": True,
         },
         "engines": [
-            {"name": "vcheck", "path": "/verif/harness", "serves_properties": sorted(CHECKS),
+            {"name": "vcheck", "path": "/verif/harness", "serves_properties": sorted(c for c in CHECKS if c != "C19"),
              "kind_free_text": "Rust binary: proptest TestRunner (fixed seeds, no persistence) draws entropy vectors that are decoded into structured cases; per-property oracles (exact rational references, differential/metamorphic relations, bounded-exhaustive enumerations); shrinks failures and writes replay files"},
+            {"name": "vmatrix", "path": "/verif/harness/matrix", "serves_properties": ["C19"],
+             "kind_free_text": "Rust binary (same driver): macro-expanded instantiation matrix compiled with the cast hook enabled"},
+            {"name": "static_c17", "path": "/verif/harness/static_c17", "serves_properties": ["C17"],
+             "kind_free_text": "compile-time Send + Sync assertions; a compile failure while the crate itself builds is reported as a C17 violation"},
         ],
         "checks": checks,
         "not_applicable": na,
